@@ -245,6 +245,13 @@ func tOr(xs ...Term) Term {
 func tImplies(a, b Term) Term { return tOr(tNot(a), b) }
 
 func tIte(c, a, b Term) Term {
+	if a.S != b.S && (a.S == SInt || b.S == SInt) {
+		if a.S == SBV {
+			a = bvToInt(a, true)
+		} else if b.S == SBV {
+			b = bvToInt(b, true)
+		}
+	}
 	if c.C {
 		if c.B {
 			return a
@@ -280,6 +287,13 @@ func tIte(c, a, b Term) Term {
 // ---------- equality ----------
 
 func tEq(a, b Term) Term {
+	if a.S != b.S && (a.S == SInt || b.S == SInt) && (a.S == SBV || b.S == SBV) {
+		if a.S == SBV {
+			a = bvToInt(a, true)
+		} else {
+			b = bvToInt(b, true)
+		}
+	}
 	if a.S != b.S {
 		panic(fmt.Sprintf("tEq sort mismatch %v %v", a, b))
 	}
